@@ -5,6 +5,10 @@ import Ptk.Model.C19
 import Ptk.Model.C19Color
 import Ptk.Model.C19Ansi
 import Ptk.Model.C19Merge
+import Ptk.Model.C19Dict
+import Ptk.Model.C19Obj
+import Ptk.Model.C19Transform
+import Ptk.Gen.C19X
 open Ptk Ptk.Py Ptk.Proto Ptk.C19
 
 def T : Tables := Gen.C19.tables
@@ -77,8 +81,191 @@ def decDepth (tok : String) : Option Depth :=
 def encFrags (l : List (Text × Text)) : String :=
   encList (fun f => encStr f.1 ++ " " ++ encStr f.2) l
 
+/-! ### style objects: `S id n rules…` | `D` | `N` | `Y obj` | `M k obj^k` -/
+mutual
+partial def decObj : List String → Option (SObj × List String)
+  | "S" :: i :: n :: rest => do
+    let (rs, r) ← decRules (← decNat n) rest
+    pure (.sheet (← decNat i) rs, r)
+  | "D" :: rest => some (.dummy, rest)
+  | "N" :: rest => some (.dynNone, rest)
+  | "Y" :: rest => do
+    let (o, r) ← decObj rest
+    pure (.dyn o, r)
+  | "M" :: k :: rest => do
+    let (os, r) ← decObjs (← decNat k) rest
+    pure (.merged os, r)
+  | _ => none
+partial def decObjs : Nat → List String → Option (List SObj × List String)
+  | 0, rest => some ([], rest)
+  | k + 1, rest => do
+    let (o, r) ← decObj rest
+    let (os, r') ← decObjs k r
+    pure (o :: os, r')
+end
+
+partial def encH : H → String
+  | .id n => s!"I{n}"
+  | .one => "1"
+  | .tup l => "(" ++ ",".intercalate (l.map encH) ++ ")"
+
+def encRawRules (l : List (Text × Text)) : String :=
+  encList (fun r => encStr r.1 ++ " " ++ encStr r.2) l
+
+def encExc : Except Err Attrs → String
+  | .ok a => encAttrs a
+  | .error e => encErr e
+
+/-! ### transformations: `W` | `R` | `SD fg bg` | `AB mn mx` | `D` | `N` | `Y t` | `C b t` | `M k t^k` -/
+mutual
+partial def decTr : List String → Option (Tr × List String)
+  | "W" :: rest => some (.swap, rest)
+  | "R" :: rest => some (.reverse, rest)
+  | "SD" :: fg :: bg :: rest => do pure (.setDefault (← decStr fg) (← decStr bg), rest)
+  | "AB" :: mn :: mx :: rest => do pure (.adjust (← decInt mn) (← decInt mx), rest)
+  | "D" :: rest => some (.dummy, rest)
+  | "N" :: rest => some (.dynNone, rest)
+  | "Y" :: rest => do
+    let (t, r) ← decTr rest
+    pure (.dyn t, r)
+  | "C" :: b :: rest => do
+    let (t, r) ← decTr rest
+    pure (.cond t (← decBool b), r)
+  | "M" :: k :: rest => do
+    let (ts, r) ← decTrs (← decNat k) rest
+    pure (.merged ts, r)
+  | _ => none
+partial def decTrs : Nat → List String → Option (List Tr × List String)
+  | 0, rest => some ([], rest)
+  | k + 1, rest => do
+    let (t, r) ← decTr rest
+    let (ts, r') ← decTrs k r
+    pure (t :: ts, r')
+end
+
+partial def encTH : TH → String
+  | .inst c => s!"inst{c}"
+  | .setDefault fg bg => "sd:" ++ encStr fg ++ ":" ++ encStr bg
+  | .adjust mn mx => s!"ab:{mn}:{mx}"
+  | .dummy => "dummy"
+  | .cond f h => "c" ++ encBool f ++ "[" ++ encTH h ++ "]"
+  | .tup l => "(" ++ ",".intercalate (l.map encTH) ++ ")"
+
+/-- measured float results: `SW color result` / `AD mn mx color result` -/
+def decFlt : Nat → List String → Option (List (Text × Text) × List (Int × Int × Text × Text) × List String)
+  | 0, rest => some ([], [], rest)
+  | n + 1, "SW" :: c :: r :: rest => do
+    let (sw, ad, rest') ← decFlt n rest
+    pure ((← decStr c, ← decStr r) :: sw, ad, rest')
+  | n + 1, "AD" :: mn :: mx :: c :: r :: rest => do
+    let (sw, ad, rest') ← decFlt n rest
+    pure (sw, (← decInt mn, ← decInt mx, ← decStr c, ← decStr r) :: ad, rest')
+  | _, _ => none
+
+def mkFlt (sw : List (Text × Text)) (ad : List (Int × Int × Text × Text)) : Flt :=
+  { swap := fun c => (lookup c sw).getD [],
+    adjust := fun mn mx c =>
+      match ad.find? (fun e => e.1 == mn && e.2.1 == mx && e.2.2.1 == c) with
+      | some e => e.2.2.2
+      | none => [] }
+
+def XT : TrTables := Gen.C19X.trTables
+
+/-- `n (k tok^k style)^n` : items of a pygments style dict -/
+def decPyg : Nat → List String → Option (List (List Text × Text) × List String)
+  | 0, rest => some ([], rest)
+  | n + 1, k :: rest => do
+    let (toks, r1) ← decStrs (← decNat k) rest
+    match r1 with
+    | st :: r2 =>
+      let (xs, r3) ← decPyg n r2
+      pure ((toks, ← decStr st) :: xs, r3)
+    | [] => none
+  | _, _ => none
+
 def handle (toks : List String) : String :=
   match toks with
+  | "fd" :: mp :: n :: rest =>
+    (do
+      let (rs, r) ← decRules (← decNat n) rest
+      if !r.isEmpty then none
+      let out := fromDictRules sp (← decBool mp) rs
+      -- (when `Style(...)` rejects a rule the constructor's error is all the caller sees)
+      pure (match compile T sp rsp out with
+            | .error e => encErr e
+            | .ok _ => encRawRules out)).getD "bad-op"
+  | "fdq" :: mp :: rest =>
+    (do
+      let (dflt, r1) ← decAttrs rest
+      match r1 with
+      | n :: r2 =>
+        let (rs, r3) ← decRules (← decNat n) r2
+        match r3 with
+        | [s] => pure (encExc (cascade T sp rsp (fromDictRules sp (← decBool mp) rs) (← decStr s) dflt))
+        | _ => none
+      | _ => none).getD "bad-op"
+  | "pyg" :: n :: rest =>
+    (do
+      let (items, r) ← decPyg (← decNat n) rest
+      if !r.isEmpty then none
+      pure (encRawRules (pygmentsRules items))).getD "bad-op"
+  | "orules" :: rest =>
+    (do
+      let (o, r) ← decObj rest
+      if !r.isEmpty then none
+      pure (encRawRules (rulesOf o))).getD "bad-op"
+  | "ohash" :: rest =>
+    (do
+      let (o, r) ← decObj rest
+      if !r.isEmpty then none
+      pure (encH (hashOf o))).getD "bad-op"
+  | "oq" :: rest =>
+    (do
+      let (dflt, r1) ← decAttrs rest
+      let (o, r2) ← decObj r1
+      match r2 with
+      | [s] => pure (encExc (queryObj T sp rsp o (← decStr s) dflt))
+      | _ => none).getD "bad-op"
+  | "app" :: inc :: rest =>
+    (do
+      let (dflt, r1) ← decAttrs rest
+      match r1 with
+      | "U" :: r2 =>
+        let (o, r3) ← decObj r2
+        match r3 with
+        | [s] => pure (encExc (queryObj T sp rsp
+                    (appStyle Gen.C19X.uiSheets Gen.C19X.pygRules (← decBool inc) (some o)) (← decStr s) dflt))
+        | _ => none
+      | ["X", s] => pure (encExc (queryObj T sp rsp
+                    (appStyle Gen.C19X.uiSheets Gen.C19X.pygRules (← decBool inc) none) (← decStr s) dflt))
+      | _ => none).getD "bad-op"
+  | "tr" :: rest =>
+    (do
+      let (a, r1) ← decAttrs rest
+      match r1 with
+      | n :: r2 =>
+        let (sw, ad, r3) ← decFlt (← decNat n) r2
+        let (t, r4) ← decTr r3
+        if !r4.isEmpty then none
+        pure (encExc (Tr.apply T XT (mkFlt sw ad) sp t a))
+      | _ => none).getD "bad-op"
+  | "trh" :: rest =>
+    (do
+      let (t, r) ← decTr rest
+      if !r.isEmpty then none
+      pure (encTH (Tr.hash t))).getD "bad-op"
+  | "stream" :: d :: n :: rest =>
+    (do
+      let depth ← decDepth d
+      let rec go : Nat → Nat → List String → Option (Text × List String)
+        | 0, _, r => some ([], r)
+        | k + 1, i, r => do
+          let (a, r') ← decAttrs r
+          let (t, r'') ← go k (i + 1) r'
+          pure (escapeCode T sp depth a ++ [Char.ofNat (97 + i % 26)] ++ t, r'')
+      let (text, r) ← go (← decNat n) 0 rest
+      if !r.isEmpty then none
+      pure (encFrags (ansiFragments T text))).getD "bad-op"
   | "q" :: rest =>
     (do
       let (dflt, r1) ← decAttrs rest
@@ -170,7 +357,7 @@ def encRes : Except Err Attrs → String
 /-- session ops over shared style objects (the heap of rule lists is the driver state):
     `new` | `sheet n rules…` | `sq <attrs> S ref str` | `sq <attrs> M k parts… str` |
     `srules S ref` | `srules M k parts…`; every other line is a stateless op -/
-def stepLine (h : Heap) (toks : List String) : Heap × String :=
+def stepLine0 (h : Heap) (toks : List String) : Heap × String :=
   match toks with
   | ["new"] => ({}, "ok")
   | "sheet" :: n :: rest =>
@@ -201,4 +388,26 @@ def stepLine (h : Heap) (toks : List String) : Heap × String :=
     | none => (h, "bad-op")
   | _ => (h, handle toks)
 
-def main : IO Unit := runS stepLine {}
+/-- the driver state: the heap of rule lists and the cache of ONE `_MergedStyle` object.
+    `mnew` = a fresh merged object; `mq <attrs> k obj^k str` = a query against it, `obj^k` being the
+    snapshot of its `styles` at this moment -/
+def stepLine (st : Heap × MCache) (toks : List String) : (Heap × MCache) × String :=
+  match toks with
+  | ["mnew"] => ((st.1, {}), "ok")
+  | "mq" :: rest =>
+    match (do
+      let (dflt, r1) ← decAttrs rest
+      match r1 with
+      | k :: r2 =>
+        let (os, r3) ← decObjs (← decNat k) r2
+        match r3 with
+        | [s] => pure (dflt, os, ← decStr s)
+        | _ => none
+      | _ => none) with
+    | some (dflt, os, s) =>
+      let (c', res) := mergedQueryCached T sp rsp st.2 os s dflt
+      ((st.1, c'), encExc res)
+    | none => (st, "bad-op")
+  | _ => let (h', r) := stepLine0 st.1 toks; ((h', st.2), r)
+
+def main : IO Unit := runS stepLine ({}, {})
